@@ -2,6 +2,7 @@
   C09 — `--group-by` / `--merge` emit exactly one complete collection at end of input.
   Corollaries of the pipeline refinement (C03).  Helper lemmas: `Jawk/Lemmas/PipelineSpec.lean`.
 -/
+import Jawk.Lemmas.RunCor
 import Jawk.Lemmas.PipelineSpec
 namespace Jawk.C09
 open Jawk Pipe
@@ -66,5 +67,27 @@ example : runP ev [.merge] [.merge []] [{ input := .num (.pos 1) }, { input := .
     = [{ input := .arr [.num (.pos 1), .null] }] := by
   have := merge_emits_once ev [] [] [{ input := .num (.pos 1) }, { input := .null }] rfl trivial (by simp [GroupLast])
   simpa [runP, feedBrk, processP, completeP, Ctx.build] using this
+
+
+/-! ### the property as stated: the grouped run against the ungrouped run of the same configuration -/
+
+/-- `--group-by E`: exactly one row, the object of the groups of the rows the SAME configuration without
+`--group-by` would print -/
+theorem group_config (orc : Oracles) (c : Cfg) (p : Pipeline) (h : build orc c = .ok p)
+    (g : Str) (hg : c.group = some (some g)) (e : Expr) (he : parseOptionExpr g = .ok e) :
+    ∃ p', build orc { c with group := none } = .ok p' ∧
+      ∀ rows, RunCor.R orc p rows = [{ input := groupValue (groupOf (evalT orc) e (RunCor.R orc p' rows)) }] :=
+  RunCor.group_config orc c p h g hg e he
+
+/-- `--merge`: exactly one row, the array of the rows the ungrouped configuration would print, in order -/
+theorem merge_config (orc : Oracles) (c : Cfg) (p : Pipeline) (h : build orc c = .ok p) (hg : c.group = some none) :
+    ∃ p', build orc { c with group := none } = .ok p' ∧
+      ∀ rows, RunCor.R orc p rows = [{ input := .arr ((RunCor.R orc p' rows).map Ctx.build) }] :=
+  RunCor.merge_config orc c p h hg
+
+/-- whatever the other options and whatever the input (empty included): exactly ONE collection reaches the printer -/
+theorem exactly_one_collection (orc : Oracles) (c : Cfg) (p : Pipeline) (h : build orc c = .ok p)
+    (hg : c.group ≠ none) (rows : List Ctx) : (RunCor.R orc p rows).length = 1 :=
+  RunCor.group_one_row orc c p h hg rows
 
 end Jawk.C09
